@@ -2,6 +2,7 @@ package sim
 
 import (
 	"fmt"
+	"os"
 	"reflect"
 	"sort"
 	"strings"
@@ -290,9 +291,14 @@ func executeOnce(t *testing.T, spec RunSpec) (res *RunResult) {
 // panicOriginInLibrary reports whether the function that panicked (the first frame below the
 // runtime's panic machinery) is library code proper, not the simulator's runtime or the harness.
 func panicOriginInLibrary(st string) bool {
+	repo := os.Getenv("VERIF_REPO")
+	if repo == "" {
+		repo = "/repo"
+	}
 	lines := strings.Split(st, "\n")
 	seenPanic := false
-	for _, l := range lines {
+	for i := 0; i < len(lines); i++ {
+		l := lines[i]
 		if strings.HasPrefix(l, "\t") || strings.HasPrefix(l, " ") || l == "" {
 			continue
 		}
@@ -303,7 +309,16 @@ func panicOriginInLibrary(st string) bool {
 		if !seenPanic || strings.HasPrefix(l, "runtime.") || strings.HasPrefix(l, "runtime/") {
 			continue
 		}
-		return strings.Contains(l, "github.com/vapourismo/knx-go/knx") && !strings.Contains(l, "/simrt.") && !strings.Contains(l, "/simnet.")
+		// the frame is judged by the file its code lives in (an inlined closure of the library is
+		// listed under the name of the harness function it was inlined into)
+		file := ""
+		if i+1 < len(lines) {
+			file = strings.TrimSpace(lines[i+1])
+		}
+		if strings.Contains(file, "/knx/simrt/") || strings.Contains(file, "/knx/simnet/") {
+			continue // the simulator's stand-in for a channel, lock, timer or socket operation: whoever called it panicked
+		}
+		return strings.HasPrefix(file, repo+"/knx/")
 	}
 	return false
 }
